@@ -26,6 +26,186 @@ def nclo(path):
     return re.sub(r"\{closure#\d+\}", "{closure}", path)
 
 
+class _Und(Exception):
+    pass
+
+
+I64 = (-(2 ** 63), 2 ** 63 - 1)
+
+
+def _p6(rep):
+    from .core import Src, show, path_of, find
+    from . import facts as _f
+
+    src = Src(_f.src_facts())
+    IV = "data_type/intervals.rs"
+    impl = [f for f in src.find_fns(file=IV) if (f.self_ty or "").replace(" ", "") == "Intervals<i64>" and (f.trait or "").replace(" ", "") == "Values<i64>"]
+    fns = {f.name: f for f in impl}
+    for need in ("values_len", "into_values", "values", "max_value_len"):
+        if need not in fns:
+            raise _Und("impl Values<i64> for Intervals<i64>::%s not found" % need)
+    # (a) into_values enumerates only under the length test
+    iv = fns["into_values"]
+    enum_calls = [m for m in find(iv.body, "mcall") if m["m"] == "values" and path_of(m["recv"]) == "self"]
+    from .core import walk_guards
+
+    ok_guard = False
+    for x, guards in walk_guards(iv.body):
+        if x["k"] == "mcall" and x["m"] == "values" and path_of(x["recv"]) == "self":
+            for g in guards:
+                if g[0] == "if" and g[2] is True:
+                    t = show(g[1], 0).replace(" ", "")
+                    if "self.values_len()" in t and "self.max_value_len()" in t and ("<self.max_value_len()" in t or "<=self.max_value_len()" in t):
+                        ok_guard = True
+    rep.instance("P6", "Intervals<i64>::into_values@guard", {"enumerations": len(enum_calls), "guarded_by_length_test": ok_guard})
+    if enum_calls and not ok_guard:
+        rep.violation("P6", "Intervals<i64>::into_values@guard", "self.values() is materialised without the test `values_len() < max_value_len()`", iv.where())
+    ml = fns["max_value_len"]
+    if show(ml.body, 0).replace(" ", "") not in ("{self.capacity}",):
+        rep.undecidable("P6", "Intervals<i64>::max_value_len", "max_value_len is not `self.capacity`: %s" % show(ml.body, 60), ml.where())
+        return
+    # (b) values_len on the grid
+    vl = fns["values_len"]
+    CAP = 128
+    pts = [I64[0], I64[0] + 1, -(10 ** 12), -1000, -200, -129, -128, -127, -1, 0, 1, 10, 127, 128, 129, 200, 1000, 10 ** 12, I64[1] - 1, I64[1]]
+    cases = bad = 0
+    worst = None
+    for lo in pts:
+        for hi in pts:
+            if lo > hi:
+                continue
+            cases += 1
+            try:
+                v = _eval_len(vl, lo, hi, CAP)
+            except _Und as u:
+                rep.undecidable("P6", "Intervals<i64>::values_len", "cannot evaluate values_len: %s" % u, vl.where())
+                return
+            except OverflowError as o:
+                bad += 1
+                worst = worst or "min=%d max=%d: %s" % (lo, hi, o)
+                continue
+            need = min(hi - lo, CAP)
+            if v is not None and v < need:
+                bad += 1
+                worst = worst or "min=%d max=%d: values_len = %d but the range has %d values (enumerated when below the capacity %d)" % (lo, hi, v, hi - lo + 1, CAP)
+    rep.instance("P6", "Intervals<i64>::values_len", {"grid_cases": cases, "unsound_or_overflowing": bad})
+    if bad:
+        rep.violation("P6", "Intervals<i64>::values_len", "values_len under-reports the number of values or overflows on %d of %d grid cases, e.g. %s" % (bad, cases, worst), vl.where())
+
+
+def _eval_len(fn, lo, hi, cap):
+    """Evaluate the body of values_len with self.min()? = lo, self.max()? = hi, self.capacity = cap.  Values are (int, type)."""
+    from .core import show, path_of
+
+    RANGE = {"i64": I64, "i128": (-(2 ** 127), 2 ** 127 - 1), "usize": (0, 2 ** 64 - 1), "u64": (0, 2 ** 64 - 1), "i32": (-(2 ** 31), 2 ** 31 - 1), "u128": (0, 2 ** 128 - 1), "isize": I64}
+
+    def chk(v, t, what):
+        a, b = RANGE.get(t, I64)
+        if not (a <= v <= b):
+            raise OverflowError("%s overflows %s" % (what, t))
+        return (v, t)
+
+    def ev(e, env):
+        k = e["k"]
+        if k == "paren":
+            return ev(e["e"], env)
+        if k == "lit" and e.get("t") == "int":
+            return (int(e["v"]), (e.get("suffix") or "i64"))
+        if k == "path":
+            if e["p"] in env:
+                return env[e["p"]]
+            if e["p"] in ("i64::MAX", "std::i64::MAX"):
+                return (I64[1], "i64")
+            if e["p"] in ("i64::MIN", "std::i64::MIN"):
+                return (I64[0], "i64")
+            raise _Und("name `%s`" % e["p"])
+        if k == "field" and path_of(e["e"]) == "self" and (e.get("name") or e.get("f")) == "capacity":
+            return (cap, "usize")
+        if k == "try":
+            return ev(e["e"], env)
+        if k == "ref":
+            return ev(e["e"], env)
+        if k == "unary":
+            v = ev(e["e"], env)
+            op = e["op"].strip()
+            if op == "*":
+                return v
+            if op == "-":
+                return chk(-v[0], v[1], "negation")
+            raise _Und("unary %s" % op)
+        if k == "cast":
+            v = ev(e["e"], env)
+            t = str(e["ty"]).replace(" ", "")
+            a, b = RANGE.get(t, (None, None))
+            if a is None:
+                raise _Und("cast to %s" % t)
+            x = v[0]
+            if not (a <= x <= b):  # `as` wraps
+                span = b - a + 1
+                x = (x - a) % span + a
+            return (x, t)
+        if k == "binary" and e["op"].strip() in ("+", "-", "*"):
+            a, b = ev(e["lhs"], env), ev(e["rhs"], env)
+            t = a[1] if a[1] == b[1] or e["rhs"]["k"] == "lit" else a[1]
+            op = e["op"].strip()
+            r = a[0] + b[0] if op == "+" else (a[0] - b[0] if op == "-" else a[0] * b[0])
+            return chk(r, t, "`%s`" % show(e, 50))
+        if k == "mcall":
+            m = e["m"]
+            if m in ("min", "max") and not e["args"] and path_of(e["recv"]) == "self":
+                return (lo if m == "min" else hi, "i64")
+            r = ev(e["recv"], env)
+            a = [ev(x, env) for x in e["args"]]
+            if m == "clamp" and len(a) == 2:
+                return (max(a[0][0], min(a[1][0], r[0])), r[1])
+            if m == "min" and len(a) == 1:
+                return (min(r[0], a[0][0]), r[1])
+            if m == "max" and len(a) == 1:
+                return (max(r[0], a[0][0]), r[1])
+            if m in ("saturating_sub", "saturating_add") and len(a) == 1:
+                x = r[0] - a[0][0] if m == "saturating_sub" else r[0] + a[0][0]
+                lo_, hi_ = RANGE.get(r[1], I64)
+                return (max(lo_, min(hi_, x)), r[1])
+            if m in ("wrapping_sub", "wrapping_add") and len(a) == 1:
+                x = r[0] - a[0][0] if m == "wrapping_sub" else r[0] + a[0][0]
+                lo_, hi_ = RANGE.get(r[1], I64)
+                return ((x - lo_) % (hi_ - lo_ + 1) + lo_, r[1])
+            if m == "abs_diff" and len(a) == 1:
+                return (abs(r[0] - a[0][0]), "u64")
+            if m in ("clone", "to_owned", "into", "unsigned_abs") and not a:
+                return (abs(r[0]), "u64") if m == "unsigned_abs" else r
+            raise _Und("method `%s`" % m)
+        if k == "call":
+            p = path_of(e["f"]) or ""
+            if p == "Some" and len(e["args"]) == 1:
+                return ev(e["args"][0], env)
+            if p.split("::")[-1] in ("from", "try_from") and len(e["args"]) == 1:
+                return ev(e["args"][0], env)
+            raise _Und("call `%s`" % p)
+        if k == "block":
+            env = dict(env)
+            val = None
+            for st in e["stmts"]:
+                if st["k"] == "let" and st.get("init") is not None:
+                    pt = st["pat"]
+                    while pt["k"] == "typed":
+                        pt = pt["pat"]
+                    if pt["k"] != "ident":
+                        raise _Und("pattern")
+                    env[pt["name"]] = ev(st["init"], env)
+                elif st["k"] == "expr":
+                    val = ev(st["e"], env)
+                    if st.get("semi"):
+                        val = None
+            if val is None:
+                raise _Und("no value")
+            return val
+        raise _Und("expression `%s`" % show(e, 60))
+
+    v = ev(fn.body, {})
+    return v[0]
+
+
 def abort_calls(mir, body):
     """(block index, macro, line) for diverging calls into the panic machinery coming from an abort macro."""
     out = []
@@ -152,7 +332,7 @@ def run(rep):
     rep.rule(
         "P2",
         "no overflow-checked i64 arithmetic (+ - * / % neg, i64::abs/pow) in reachable bodies on values that are not provably small: every site must be in the reviewed safe table or is reported",
-        floor=10,
+        floor=8,
         necessary="schema bounds may be i64::MIN/MAX: unchecked arithmetic on them panics in debug builds and wraps in release builds",
     )
     from .c18_tables import SAFE_ARITH
@@ -275,6 +455,20 @@ def run(rep):
             rep.instance("P5", key, {"in": b["path"], "result_used_by": [u["path"][-50:] for u in us][:4]})
             if bad:
                 rep.violation("P5", key, "the Result of try_empty is unwrapped (%s): types without an empty form (Id, Enum, Any, structs holding one) panic here" % bad[0][-40:], "%s:%d" % (b["file"], line))
+
+    # ---------------- P6 bounded enumeration of integer ranges
+    rep.rule(
+        "P6",
+        "Intervals<i64>::into_values materialises `a..=b` only under `values_len() < max_value_len()`; values_len (evaluated symbolically on a grid of bounds incl. i64::MIN/MAX, "
+        "ranges far from zero, capacity 128) never overflows and is >= min(max - min, capacity): a range reported short really has at most `capacity` values",
+        floor=2,
+        necessary="a wide range reported as short is enumerated into a Vec: `SELECT id, age + 1 FROM t WHERE age > 10` on an unbounded integer column panicked with 'capacity overflow' "
+        "(fixed defect: both bounds were clamped separately), narrower ones allocate gigabytes",
+    )
+    try:
+        _p6(rep)
+    except Exception as e:  # Anchor etc.
+        rep.error("P6 could not evaluate values_len: %s" % e)
 
     # ---------------- E1 / E2 dispatch exhaustiveness
     rep.rule(
